@@ -52,7 +52,7 @@ CLAIMED["C19"] = ("model_checking",
   "DESIGN.md §5 C19")
 CLAIMED["C20"] = ("model_checking",
   "exhaustive enumeration of a finite menu of real child processes (inputs x policies x configurations x stdout kinds x row separators), compared with the in-process run and with the strict reference reader",
-  "The jawk binary built from the working tree is spawned for every combination of 16 inputs (four of them large enough to overflow every stdout buffer), 4 policies, 11 configurations (+file arguments, missing file), stdout as pipe / EPIPE pipe / /dev/full, row separator with and without newline; stdout must equal the library run's rows, diagnostics under --on-error=stderr must be on stderr only, and the exit status must be 0 exactly when the run succeeded and every byte was accepted (and non-zero for malformed input under --on-error=panic, judged by the reference reader).",
+  "The jawk binary built from the working tree is spawned for every combination of 16 inputs (four of them large enough to overflow every stdout buffer), 4 policies, 16 configurations (+file arguments, missing file), stdout as pipe / EPIPE pipe / /dev/full, row separator with and without newline; stdout must equal the library run's rows, diagnostics under --on-error=stderr must be on stderr only, and the exit status must be 0 exactly when the run succeeded and every byte was accepted (and non-zero for malformed input under --on-error=panic, judged by the reference reader).",
   "Outside: stdout as a closed descriptor (>&-), which std maps to success.",
   "DESIGN.md §5 C20")
 CLAIMED["C08"] = ("model_checking",
